@@ -17,7 +17,10 @@ from ..runner import shrink_ops
 
 ID = 'C15'
 RULE = ("random construction programs over <= 8 blocks (1..3 Inputs, 1..5 CBlocks of class Not / Override / "
-        "FuncBlock) in random creation order: connect() with block objects, names (also forward), "
+        "FuncBlock) in random creation order; in half of the programs the block names are s0.. / c0.., in the "
+        "other half they come from families of names that begin with the characters of '_not_' or are suffixes "
+        "of each other (tx/x, not_a/a, ton/on/n, note/e, north/rth, o2/2, ...), used for S- and C-blocks, "
+        "shortcuts, events and filters alike: connect() with block objects, names (also forward), "
         "'_not_NAME' shortcuts to S- and C-blocks (repeated, so inverters must be shared), '_ctrl', Const "
         "objects, plain values, tuple values as keyword groups, unnamed/named single inputs and groups of "
         "size 0..3; Event / IfOutput / IfNotIitialized / DataEdit.add_output references by name and by object; "
@@ -37,6 +40,13 @@ ASSUMPTIONS = [
 EXHAUSTIVE = {'quick': False, 'thorough': False}
 
 UNDEF_TAG = {'u': 1}
+# block names chosen so that str.lstrip/strip with the character set of '_not_', a wrong prefix length
+# or a substring search instead of removeprefix('_not_') picks another existing block or nothing
+NAME_FAMILIES = [
+    ['tx', 'x'], ['not_a', 'a'], ['on', 'n'], ['ton', 'on', 'n'], ['o2', '2'], ['n1', '1'],
+    ['note', 'e'], ['north', 'rth'], ['t', 'o'], ['no', 'not'], ['not_', 'ot_'], ['t_x', 'x'],
+    ['x_not_y', 'y'], ['nn', 'n'], ['oo'], ['tot', 'to'],
+]
 CONSTS = [None, True, False, 2, 3, -7, 2.5, 'txt', {'t': [4, 5]}, {'t': []}, {'l': [6]}]
 PLAIN = [None, True, False, 2, 3, -7, 2.5]
 TUPLE_KW = [{'t': [2, 3]}, {'l': [None, True]}, {'t': []}, {'t': ['s0', 2]}]
@@ -127,10 +137,33 @@ def _gen_connect(rng, st, cls, bad=None):
 def gen_scenario(rng, bad=None):
     ns = rng.randint(1, 3)
     nc = rng.randint(1, 5)
-    snames = [f's{i}' for i in range(ns)]
-    cnames = [f'c{i}' for i in range(nc)]
+    if rng.random() < 0.5:
+        snames = [f's{i}' for i in range(ns)]
+        cnames = [f'c{i}' for i in range(nc)]
+        inv_first = []
+    else:
+        # names that begin with the characters of '_not_' and names that are suffixes of each other:
+        # the inverter of '_not_X' must be wired to the block called exactly X
+        fams = rng.sample(NAME_FAMILIES, rng.choice([1, 2, 2, 3]))
+        names = []
+        for fam in fams:
+            for n in fam:
+                if n not in names:
+                    names.append(n)
+        rng.shuffle(names)
+        names = names[:ns + nc]
+        fill = [f's{i}' for i in range(3)] + [f'c{i}' for i in range(5)]
+        while len(names) < ns + nc:
+            names.append(fill.pop(0))
+        inv_first = [n for n in names if n[0] in 'not' or any(m != n and m.endswith(n) for m in names)]
+        rng.shuffle(names)
+        snames, cnames = names[:ns], names[ns:]
     planned = snames + cnames
     inv_pool = rng.sample(planned, min(len(planned), rng.choice([1, 1, 2, 3])))
+    if inv_first:
+        # shortcuts mostly to the awkward names, longest first ('_not_tx' while 'x' exists too)
+        inv_first.sort(key=len, reverse=True)
+        inv_pool = (inv_first[:rng.choice([1, 2, 3])] + inv_pool)[:3]
     st = {'planned': planned, 'created': [], 'inv_pool': inv_pool}
     classes = {c: rng.choice(['any', 'any', 'any', 'not', 'not', 'ovr']) for c in cnames}
     todo = [('s', n) for n in snames] + [('c', n) for n in cnames]
@@ -148,10 +181,10 @@ def gen_scenario(rng, bad=None):
         if rng.random() < 0.35 and nslots < 4:
             kind = rng.choice(['event', 'event', 'ifout', 'ifnotinit', 'addout'])
             need_s = kind in ('event', 'ifnotinit')
-            pool_s = [n for n in planned if n[0] == 's']
+            pool_s = list(snames)
             q = rng.random()
             if q < 0.35:
-                cands = [n for n in st['created'] if (n[0] == 's' or not need_s)]
+                cands = [n for n in st['created'] if (n in snames or not need_s)]
                 if cands:
                     ops.append(['slot', kind, ['o', rng.choice(cands)]])
                     nslots += 1
@@ -321,14 +354,15 @@ def _inp_line(inp):
 
 
 class _Run:
-    def __init__(self):
+    def __init__(self, scn=None):
         # blocks of "another circuit" with the names this scenario uses
         edzed.reset_circuit()
         self.foreign = {}
-        for i in range(4):
-            self.foreign[f's{i}'] = edzed.Input(f's{i}', initdef=0)
-        for i in range(6):
-            self.foreign[f'c{i}'] = edzed.FuncBlock(f'c{i}', func=_anyfunc)
+        for op in (scn or {}).get('ops', []):
+            name = op[1] if op[0] == 's' else op[2] if op[0] == 'c' else None
+            if name and not name.startswith('_') and name not in self.foreign:
+                self.foreign[name] = (edzed.Input(name, initdef=0) if op[0] == 's'
+                                      else edzed.FuncBlock(name, func=_anyfunc))
         edzed.reset_circuit()
         self.circuit = edzed.get_circuit()
         self.blocks = {}        # objects created by the scenario, by name
@@ -607,7 +641,7 @@ class _Run:
 
 
 def run_impl(scn):
-    run = _Run()
+    run = _Run(scn)
     try:
         for op in scn['ops']:
             if run.started and op[0] != 'dump':
